@@ -15,4 +15,5 @@ def run(facts, cg):
     out['r_chunker'] = r_chunker.run(facts, cg)
     out['r_readerwiring'] = r_readerwiring.run(facts, cg)
     out['r_cliflags'] = r_openflags.run_cliflags(facts, cg)
+    out['r_err_fatal'] = r_err.run_fatal(facts, cg)
     return out
